@@ -31,7 +31,7 @@ from fractions import Fraction as F
 from ..loader import AnalysisError
 from ..pe import ConfigRejected, PyRaise, Tensor, Obj, PE, ClassRef, NArr
 from ..pe import Unsupported
-from .. import quant, qref
+from .. import quant, qref, prims
 from ..qir import Fwd, equal_mod_finite
 from ..nf import NF, show
 
@@ -703,6 +703,18 @@ def rule_construction_history(rep, repo, mod, classes, rule, unit_method=
         rep_[m] = pe.call(pe.getattr(q, m), [], {})
       except (PyRaise, Unsupported):
         rep_[m] = None
+    # its printed form and what its own configuration rebuilds
+    try:
+      rep_["str"] = prims.call(pe, "str", [q], {}, None)
+    except (PyRaise, Unsupported):
+      rep_["str"] = None
+    try:
+      config = pe.call(pe.getattr(q, "get_config"), [], {})
+      q2 = pe.call(pe.getattr(cref, "from_config"), [dict(config)], {})
+      pe.rand_counter = 0
+      rep_["rebuilt"] = pe.call(q2, [pe.x_input()], {})
+    except (PyRaise, Unsupported):
+      rep_["rebuilt"] = None
     return q, out, rep_
   # the history: everything once
   for cls, kw in points:
@@ -736,6 +748,16 @@ def rule_construction_history(rep, repo, mod, classes, rule, unit_method=
     for m in ("min", "max"):
       if bad is None and not same_value(rs[m], rf[m]):
         bad = "%s() = %r, alone %r" % (m, rs[m], rf[m])
+    if bad is None and rs["str"] != rf["str"]:
+      bad = "str() = %r, alone %r" % (rs["str"], rf["str"])
+    if bad is None and isinstance(rs["rebuilt"], Tensor) and isinstance(
+        rf["rebuilt"], Tensor):
+      for ph in ("infer", "train"):
+        f1 = Fwd(ph, syms)(rs["rebuilt"].term)
+        f2 = Fwd(ph, syms)(rf["rebuilt"].term)
+        if bad is None and not equal_mod_finite(f1, f2):
+          bad = "rebuilt from its own config: %s forward %s, alone %s" % (
+              ph, show(f1, 140), show(f2, 140))
     rep.check(bad is None, rule, unit, "depends-on-earlier-quantizers",
               "%s: %s" % (cfg, bad), loc=shared.loc_of(os_.term),
               instance="%s(%s)" % (cls, show_kw(kw)))
